@@ -8,8 +8,11 @@ namespace GunYu.Psync
 
 /-! ### cache queries under well-formedness (both backends agree) -/
 
+/-- the snapshot serves the offsets before it, and its own offset while no log is held
+    (with a log starting there the log serves it; with a log starting later — memory,
+    after the collector — nobody does) -/
 def rdbCovers (c : Cache) (off : Int) : Prop :=
-  match c.rdb with | some (left, _) => off ≤ left | none => False
+  match c.rdb with | some (left, _) => off < left ∨ (off = left ∧ c.aof = none) | none => False
 def aofCovers (c : Cache) (off : Int) : Prop :=
   match c.aof with | some (l, r) => l ≤ off ∧ off ≤ r | none => False
 
@@ -21,7 +24,7 @@ theorem inRange_iff {c : Cache} (h : CacheWF c) (off : Int) :
     simp only [Cache.inRange, Cache.range, maxInt64, rdbCovers, aofCovers] <;>
     (try rename_i x; obtain ⟨a, b⟩ := x) <;> (try rename_i y; obtain ⟨a', b'⟩ := y) <;>
     simp
-  all_goals (simp only [maxInt64] at ha hr hc; omega)
+  all_goals (simp only [maxInt64, if_true, if_false, reduceCtorEq] at ha hr hc; omega)
 
 
 theorem latest_aof {c : Cache} {l r : Int} (h : c.aof = some (l, r)) : c.latest = r := by
@@ -43,7 +46,7 @@ theorem range_snd {c : Cache} (h : CacheWF c) (hd : c.rdb.isSome ∨ c.aof.isSom
     simp only [Cache.range, Cache.latest, maxInt64] <;>
     (try rename_i x; obtain ⟨a, b⟩ := x) <;> (try rename_i y; obtain ⟨a', b'⟩ := y) <;>
     simp at hd ⊢
-  all_goals (simp only [maxInt64] at ha hr hc; omega)
+  all_goals (simp only [maxInt64, if_true, if_false, reduceCtorEq] at ha hr hc; omega)
 
 /-! ### start point -/
 
@@ -116,7 +119,8 @@ theorem sendPSync_full {s : Source} {id : Id} {off : Int} (h : (sendPSync s id o
 theorem sendPSync_cont {s : Source} (hs : SourceWF s) {id : Id} {off : Int}
     (h : (sendPSync s id off).full = false) :
     0 ≤ off ∧ (sendPSync s id off).wireOff = off + 1 ∧ (sendPSync s id off).off = off ∧
-      (id = s.id1 ∨ (id = s.id2 ∧ off ≤ s.switchOff)) ∧ off ≤ s.masterOff ∧ s.backlogFirst ≤ off + 1 := by
+      (id = s.id1 ∨ (id = s.id2 ∧ off ≤ s.switchOff)) ∧ off ≤ s.masterOff ∧ s.backlogFirst ≤ off + 1 ∧
+      s.backlog = true := by
   have hf := hs.first_pos
   unfold sendPSync at h ⊢
   cases heq : admitPsync s id (wireOf off) with
@@ -130,7 +134,7 @@ theorem sendPSync_cont {s : Source} (hs : SourceWF s) {id : Id} {off : Int}
     by_cases hoff : off ≥ 0
     · rw [if_pos hoff] at h1 h3 h4
       rw [if_pos hoff]
-      refine ⟨hoff, rfl, by omega, ?_, by omega, h3⟩
+      refine ⟨hoff, rfl, by omega, ?_, by omega, h3, hb⟩
       rcases h1 with h1 | ⟨h1, h2⟩
       · exact Or.inl h1
       · exact Or.inr ⟨h1, by omega⟩
